@@ -104,7 +104,10 @@ class MsgUnit(Unit):
     def kani_module(self, ctx, prog):
         return spec_misc.kani_message(prog)[0]
     def kani_harnesses(self, ctx, prog):
-        return spec_misc.kani_message(prog)[1]
+        hs = spec_misc.kani_message(prog)[1]
+        if ctx.tier != 'thorough':
+            hs = [h for h in hs if h[0].startswith('ser_')]     # get_serializations is outside Verus (R9): always decided by Kani
+        return hs
 
 class PropsUnit(Unit):
     rule = ('enumerated: 0..6 properties per variant in 1..3 props(..) groups x keys shared across variants and across types x values {str incl. empty/non-ASCII, '
@@ -117,6 +120,10 @@ class PropsUnit(Unit):
     def candidate_replay(self, ctx, prog, o):
         from .. import lreplay
         return lreplay.props(prog, o.fn)
+    def kani_module(self, ctx, prog):
+        return spec_misc.kani_props(prog)[0]
+    def kani_harnesses(self, ctx, prog):
+        return spec_misc.kani_props(prog)[1] if ctx.tier == 'thorough' else []
 
 def run(ctx):
     return {'C09': DiscUnit, 'C13': IsUnit, 'C14': MsgUnit, 'C15': PropsUnit}[ctx.pid]().run(ctx)
